@@ -122,9 +122,14 @@ META = {
              "argument parser and cmdline_args_override are decided by the bounded driver (schemas depth <= 3, all command lines incl. the empty one, ignore lists).",
              "argparse is external", "bounded run-time contract checking"),
     "C17": M("other",
-             "Bounded only so far: differential run-time contracts of ListProxy/DictProxy against the built-in list/dict over validated items (78k op sequences per quick run: "
-             "every operation of the statement, every iterable kind, return values, typed copies).",
-             "built-in list/dict are the oracle", "bounded run-time contract checking"),
+             "Proved for all states and arguments (50 obligations): ListProxy.append, insert, index assignment, extend, +=, +, copy and construction (from nothing, a list or a "
+             "tuple) and DictProxy item assignment and setdefault behave like the built-in over the normalised items - length, order, untouched prefix, position of the new items, "
+             "return values, typed fresh copies, exactly when the items of another proxy are taken over as they are; the generator expressions that feed the built-in list are "
+             "verified as the loops they are (inductive invariants). Bounded, not proved: arbitrary iterables (iterators, generators, views, the receiver itself), slice "
+             "assignment, *, pop/remove/delete/sort/reverse/clear (inherited built-ins), DictProxy.update / |= / copy / construction and all queries - decided by the differential "
+             "driver against the built-in list/dict (100k operation sequences per quick run: every operation of the statement, every iterable kind, return values, typed copies).",
+             "built-in list/dict are the oracle of the bounded part; item_norm/entry_norm (what validation makes of a value) are defined by the validators' outcome",
+             "contracts on the real proxy classes discharged by z3/cvc5 + bounded differential run-time contract checking"),
     "C18": M("proof",
              "IncludeField.combine_trees verified for all trees: the result's domain is the union, included values win, two maps merge recursively (own contract as induction "
              "hypothesis), keys only in the base are kept, the result is a new map and no input is mutated (inductive loop invariant over the child's keys). include(), "
